@@ -189,3 +189,67 @@ Proof.
       eexists; exists f; repeat split; eauto
     end.
 Qed.
+
+(* ---------- with a dead transport every request the loop holds or takes is resolved ---------- *)
+
+Inductive dstepo (r : rres) (wf : bool) : point * list request -> list cout -> list N -> point * list request -> Prop :=
+  | DoRecv p qs p' outs : wants_recv p = true -> cstep wf p (InRecv r) = (p', outs) -> dstepo r wf (p, qs) outs [] (p', qs)
+  | DoCmd p q qs p' outs : wants_cmd p = true -> cstep wf p (InCmd (Some q)) = (p', outs) -> dstepo r wf (p, q :: qs) outs [q_id q] (p', qs)
+  | DoClosed p p' outs : wants_cmd p = true -> cstep wf p (InCmd None) = (p', outs) -> dstepo r wf (p, []) outs [] (p', [])
+  | DoTimeout p' outs : cstep wf PWindow InTimeout = (p', outs) -> dstepo r wf (PWindow, []) outs [] (p', []).
+
+(* a run, with everything the loop emitted and the ids of the requests it took from the queue *)
+Inductive drunso (r : rres) (wf : bool) : point * list request -> list cout -> list N -> point * list request -> Prop :=
+  | DoR0 s : drunso r wf s [] [] s
+  | DoRS s outs1 tk1 s1 outs2 tk2 s2 :
+      dstepo r wf s outs1 tk1 s1 -> drunso r wf s1 outs2 tk2 s2 -> drunso r wf s (outs1 ++ outs2) (tk1 ++ tk2) s2.
+
+Lemma answered_app_l outs outs' id : answered outs id -> answered (outs ++ outs') id.
+Proof.
+  intros [[x H] | H]; [left; exists x | right]; apply in_or_app; left; exact H.
+Qed.
+
+Lemma answered_app_r outs outs' id : answered outs' id -> answered (outs ++ outs') id.
+Proof.
+  intros [[x H] | H]; [left; exists x | right]; apply in_or_app; right; exact H.
+Qed.
+
+Lemma dstepo_accounted r wf s outs tk s' id :
+  dstepo r wf s outs tk s' -> In id (holds (fst s) ++ tk) -> answered outs id \/ In id (holds (fst s')).
+Proof.
+  intros H Hin.
+  destruct H as [p qs p' o Hw H | p q qs p' o Hw H | p p' o Hw H | p' o H]; cbn [fst] in *.
+  - eapply (responders_accounted wf p (InRecv r)); [exact Hw | exact H | cbn [taken]; exact Hin].
+  - eapply (responders_accounted wf p (InCmd (Some q))); [exact Hw | exact H | cbn [taken]; exact Hin].
+  - eapply (responders_accounted wf p (InCmd None)); [exact Hw | exact H | cbn [taken]; exact Hin].
+  - eapply (responders_accounted wf PWindow InTimeout); [reflexivity | exact H | cbn [taken]; exact Hin].
+Qed.
+
+(* every responder held at the start and every request taken from the queue along the run has been
+   answered or dropped by the time the loop has left *)
+Theorem dead_all_resolved r wf s outs tk s' :
+  drunso r wf s outs tk s' -> fst s' = PExited ->
+  forall id, In id (holds (fst s) ++ tk) -> answered outs id.
+Proof.
+  intros H. induction H as [s | s outs1 tk1 s1 outs2 tk2 s2 Hs Hr IH]; intros Hex id Hin.
+  - rewrite Hex in Hin. cbn in Hin. contradiction.
+  - rewrite app_assoc in Hin. apply in_app_or in Hin. destruct Hin as [Hin | Hin].
+    + destruct (dstepo_accounted r wf s outs1 tk1 s1 id Hs Hin) as [Ha | Hh].
+      * apply answered_app_l. exact Ha.
+      * apply answered_app_r. apply IH; [exact Hex | apply in_or_app; left; exact Hh].
+    + apply answered_app_r. apply IH; [exact Hex | apply in_or_app; right; exact Hin].
+Qed.
+
+(* the queue only shrinks from the front: what was taken is a prefix of what was queued *)
+Lemma drunso_queue r wf s outs tk s' :
+  drunso r wf s outs tk s' -> exists taken_reqs, snd s = taken_reqs ++ snd s' /\ tk = map q_id taken_reqs.
+Proof.
+  intros H. induction H as [s | s outs1 tk1 s1 outs2 tk2 s2 Hs Hr IH].
+  - exists []. split; reflexivity.
+  - destruct IH as (t2 & Hq & Ht).
+    destruct Hs as [p qs p' o Hw H | p q qs p' o Hw H | p p' o Hw H | p' o H]; cbn [snd] in *.
+    + exists t2. split; [exact Hq | exact Ht].
+    + exists (q :: t2). split; [rewrite Hq; reflexivity | cbn; rewrite Ht; reflexivity].
+    + exists t2. split; [exact Hq | exact Ht].
+    + exists t2. split; [exact Hq | exact Ht].
+Qed.
